@@ -24,7 +24,9 @@ attributes of the objects under test):
 A thread whose next event is an acquire of a taken lock, a get on an empty queue or a `deliver` before the
 responder produced its hello is not runnable.
 """
+import os
 import struct
+import sys
 import threading
 
 from . import c04_noise as NZ
@@ -36,7 +38,199 @@ LOCKNODE_H = {"segments": 1, "noise": 2, "coder": 5, "top": 6}
 ENTRY_H = {5: "coder", 6: "top"}
 EVH = {"acq": 1, "rel": 2, "put": 3, "get": 4, "write": 5, "flip": 6, "nsend": 7}
 # events that are scheduling points of the real threads but no steps of the model
-INVISIBLE = ("rdstate", "cb", "iput", "iget", "auth", "deliver", "start", "flipped")
+INVISIBLE = ("rdstate", "cb", "iput", "iget", "auth", "deliver", "start", "flipped", "mklock", "line")
+
+
+# ---------------------------------------------------------------- lock CREATION is instrumented, not lock attributes
+# The harness never assigns a layer's `lock`: it rebinds `threading.Lock` as seen by the yowsup modules that
+# create locks (yowsup.layers -> YowLayer.lock, yowsup.layers.noise.layer -> _flush_lock,
+# yowsup.layers.protocol_iq.layer -> _pingQueueLock) to a factory returning an instrumented lock.  A lock being
+# created is an event of its own (`mklock`, a scheduling point INSIDE the factory, i.e. before the caller can store
+# the new lock anywhere): on the unchanged code every lock is created while the stack is built, single-threaded;
+# a layer that creates its lock lazily inside toLower gets a scheduling point between its "no lock yet" test and the
+# assignment.
+_real_threading = threading
+_RealLock = threading.Lock
+CURRENT = [None]          # the LockCtl of the bench being built / run in this process
+
+
+class CLock(object):
+    """Instrumented lock (acquire/release, `with`, locked).  Which layer it belongs to is found out, not told."""
+    _count = [0]
+
+    def __init__(self, ctl, owner, site):
+        self.ctl, self.owner, self.site = ctl, owner, site
+        self.real = _RealLock()
+        CLock._count[0] += 1
+        self.uid = CLock._count[0]
+        self._name = None
+
+    def acquire(self, *a, **k):
+        c = self.ctl
+        if c is not None:
+            c.before(self, "acq")
+        return self.real.acquire(*a, **k)
+
+    def release(self):
+        c = self.ctl
+        if c is not None:
+            c.before(self, "rel")
+        self.real.release()
+
+    def locked(self):
+        return self.real.locked()
+
+    def __enter__(self):
+        self.acquire()
+        return self
+
+    def __exit__(self, *a):
+        self.release()
+
+
+def make_lock():
+    ctl = CURRENT[0]
+    f = sys._getframe(1)
+    fn = f.f_code.co_filename.replace(os.sep, "/")
+    lk = CLock(ctl, f.f_locals.get("self"), ("/".join(fn.split("/")[-2:]), f.f_code.co_name))
+    if ctl is not None:
+        ctl.created(lk)
+    return lk
+
+
+class _ThreadingProxy(object):
+    """`threading` as seen by one yowsup module: everything real except Lock"""
+
+    def __init__(self, real):
+        self.__dict__["_real"] = real
+
+    def __getattr__(self, name):
+        if name == "Lock":
+            return make_lock
+        return getattr(self.__dict__["_real"], name)
+
+
+_installed = []
+
+
+def install_lock_factory():
+    """idempotent; returns the list of (module, name) bindings that were replaced"""
+    if _installed:
+        return _installed
+    import importlib
+    for modname in ("yowsup.layers", "yowsup.layers.noise.layer", "yowsup.layers.protocol_iq.layer"):
+        mod = importlib.import_module(modname)
+        if getattr(mod, "threading", None) is _real_threading:
+            mod.threading = _ThreadingProxy(_real_threading)
+            _installed.append((modname, "threading"))
+        if getattr(mod, "Lock", None) is _RealLock:
+            mod.Lock = make_lock
+            _installed.append((modname, "Lock"))
+    return _installed
+
+
+class LockCtl(object):
+    """Per bench: which layers exist, which locks are scheduling points, how an event reaches the scheduler."""
+    sched = None
+
+    def __init__(self, known):
+        self.known = set(known)
+        self.layers = {}          # short name -> layer object
+        self.extra = []           # (object, attribute, short name) for locks that are not `layer.lock`
+        self.fallback = []        # layers whose lock did not come out of the factory (assigned by the harness)
+        self.line_mode = False
+
+    # --- naming
+    def by_owner(self, lk):
+        if lk.site[0].endswith("layers/__init__.py") and lk.site[1] in ("toLower", "__init__"):
+            for name, layer in self.layers.items():
+                if layer is lk.owner:
+                    return name
+        return None
+
+    def resolve(self, lk):
+        if lk._name is not None:
+            return lk._name
+        for name, layer in self.layers.items():
+            if getattr(layer, "__dict__", {}).get("lock") is lk:
+                lk._name = name
+                return name
+        for obj, attr, name in self.extra:
+            if getattr(obj, "__dict__", {}).get(attr) is lk:
+                lk._name = name
+                return name
+        return self.by_owner(lk)
+
+    def adopt_layers(self, layers, extra=()):
+        """called once the stack exists.  A layer whose lock attribute holds something that is not ours (the library
+        stopped calling threading.Lock() where we can see it) gets an instrumented lock assigned, as before, and is
+        listed; a layer without a lock yet is left alone (lazy creation will come through the factory)."""
+        self.layers = dict(layers)
+        self.extra = list(extra)
+        for name, layer in self.layers.items():
+            cur = getattr(layer, "lock", None)
+            if name in self.known and cur is not None and not isinstance(cur, CLock):
+                layer.lock = CLock(self, layer, ("layers/__init__.py", "__init__"))
+                self.fallback.append(name)
+        for obj, attr, name in self.extra:
+            cur = getattr(obj, attr, None)
+            if name in self.known and cur is not None and not isinstance(cur, CLock):
+                setattr(obj, attr, CLock(self, obj, ("?", attr)))
+                self.fallback.append(name)
+
+    # --- events (emit is bench specific)
+    def before(self, lk, kind):
+        if self.sched is None:
+            return
+        name = self.resolve(lk)
+        if name in self.known:
+            self.emit(kind, name, lk)
+
+    def created(self, lk):
+        if self.sched is None:
+            return
+        name = self.by_owner(lk)
+        if name in self.known:
+            self.emit("mklock", name, lk)
+
+    def line(self, lineno):
+        if self.sched is not None and self.line_mode:
+            self.emit("line", lineno, None)
+
+    def emit(self, kind, name, lk):
+        raise NotImplementedError
+
+
+class LineMode(object):
+    """Line-level preemption restricted to ONE code object (YowLayer.toLower): sys.monitoring LINE events of that
+    code object only, each a scheduling point (no model step).  Makes check-then-act races inside toLower itself
+    schedulable even when no lock / queue operation separates the steps."""
+
+    def __init__(self, ctl):
+        self.ctl = ctl
+        self.code = None
+
+    def __enter__(self):
+        import yowsup.layers as L
+        mon = sys.monitoring
+        self.code = L.YowLayer.toLower.__code__
+        self.tool = mon.PROFILER_ID
+        mon.use_tool_id(self.tool, "c11-line")
+        ctl = self.ctl
+
+        def cb(code, line):
+            ctl.line(line)
+        mon.register_callback(self.tool, mon.events.LINE, cb)
+        mon.set_local_events(self.tool, self.code, mon.events.LINE)
+        ctl.line_mode = True
+        return self
+
+    def __exit__(self, *a):
+        mon = sys.monitoring
+        self.ctl.line_mode = False
+        mon.set_local_events(self.tool, self.code, 0)
+        mon.register_callback(self.tool, mon.events.LINE, None)
+        mon.free_tool_id(self.tool)
 
 
 class HSched(object):
@@ -65,6 +259,8 @@ class HSched(object):
         self.threads = []
         self.on_spawn = None
         self.flag = {}            # tid -> True while the thread is inside a reply sent from the receive path
+        self.lock_uids = {}       # site name -> set of distinct lock objects acquired under that name
+        self.lock_created = 0     # locks created by scheduled threads during the run
 
     def tid(self):
         return self.tids.get(threading.get_ident())
@@ -76,12 +272,12 @@ class HSched(object):
         else:
             self.wake.release()
 
-    def yield_(self, kind, obj=None, pred=None):
+    def yield_(self, kind, obj=None, pred=None, lock=None):
         tid = self.tid()
         if tid is None:
             return None
         rec = [tid, kind, obj, None, bool(self.flag.get(tid))]
-        self.pending[tid] = (rec, pred)
+        self.pending[tid] = (rec, pred, lock)
         self._signal(tid)
         self.sems[tid].acquire()
         return rec
@@ -120,9 +316,7 @@ class HSched(object):
         return tid
 
     def enabled(self, item):
-        rec, pred = item
-        if rec[1] == "acq":
-            return self.owner.get(rec[2]) is None
+        pred = item[1]
         if pred is not None:
             return bool(pred())
         return True
@@ -165,7 +359,11 @@ class HSched(object):
                     runnable.insert(0, self.last)
                 k = self.chooser(len(self.choices), runnable, self)
                 tid = runnable[k]
-                rec, _ = self.pending.pop(tid)
+                rec, _, lk = self.pending.pop(tid)
+                if rec[1] == "acq" and lk is not None:
+                    self.lock_uids.setdefault(rec[2], set()).add(lk.uid)
+                elif rec[1] == "mklock":
+                    self.lock_created += 1
                 self.options.append(len(runnable))
                 self.choices.append(k)
                 self.preemptible.append(pre)
@@ -184,35 +382,15 @@ class HSched(object):
             threading.Thread.start = orig_start
 
 
-class Holder(object):
-    sched = None
-
-
-class HLock(object):
-    def __init__(self, name, holder):
-        self.name, self.h, self.real = name, holder, threading.Lock()
-
-    def acquire(self, *a, **k):
-        s = self.h.sched
-        if s is not None:
-            s.yield_("acq", self.name)
-        return self.real.acquire(*a, **k)
-
-    def release(self):
-        s = self.h.sched
-        if s is not None:
-            s.yield_("rel", self.name)
-        self.real.release()
-
-    def locked(self):
-        return self.real.locked()
-
-    def __enter__(self):
-        self.acquire()
-        return self
-
-    def __exit__(self, *a):
-        self.release()
+class HCtl(LockCtl):
+    def emit(self, kind, name, lk):
+        s = self.sched
+        if s is None or s.tid() is None:
+            return
+        if kind == "acq":
+            s.yield_("acq", name, (lambda: not lk.real.locked()), lock=lk)
+        else:
+            s.yield_(kind, name)
 
 
 class HQueue(object):
@@ -246,13 +424,13 @@ class HsBench(object):
         self.server_stanzas = server_stanzas
         self.replies = {}
         self.nsenders = 0
+        install_lock_factory()
+        self.h = h = HCtl(("segments", "noise", "coder", "top", "flush"))
+        CURRENT[0] = h
         self.rig = rig = c04_rig.Rig(scratch, name, variant)
-        self.h = Holder()
-        h = self.h
-        for lname, layer in (("segments", rig.seg), ("noise", rig.noise), ("coder", rig.coder), ("top", rig.top)):
-            layer.lock = HLock(lname, h)
         noise = rig.noise
-        noise._flush_lock = HLock("flush", h)
+        h.adopt_layers({"segments": rig.seg, "noise": rig.noise, "coder": rig.coder, "top": rig.top},
+                       extra=[(noise, "_flush_lock", "flush")])
         self.cur_op = {}
         self.hs_tid = None
         self.nput_hs = 0
@@ -379,7 +557,7 @@ class HsBench(object):
         P = self.rig.m["ProtocolTreeNode"]
         return P("iq", {"id": "t%d-%d" % (tid, k), "type": "get", "xmlns": "w", "to": "s.whatsapp.net"})
 
-    def run(self, senders, chooser, late=()):
+    def run(self, senders, chooser, line=False):
         """senders: per application thread the list of entry nodes of its sends (6 = top.send, 5 = coder.send).
         Harness thread ids: 0 = environment, 1..n = senders, n+1 = the adopted handshake worker."""
         rig = self.rig
@@ -422,7 +600,11 @@ class HsBench(object):
         fns = [(env, "env")] + [(mk(i + 1, ops), "sender%d" % (i + 1)) for i, ops in enumerate(senders)]
         self.h.sched = s
         try:
-            s.run(fns)
+            if line:
+                with LineMode(self.h):
+                    s.run(fns)
+            else:
+                s.run(fns)
         finally:
             self.h.sched = None
         return s
@@ -518,6 +700,13 @@ def model_args(bench, senders, s):
     return opss, sched, real
 
 
+def lock_identity_diffs(lock_uids):
+    """the model has exactly ONE lock per toLower site"""
+    return ["layer %s: %d distinct lock objects were acquired for its toLower in one run (the model has one lock per "
+            "site; a second object means two threads can be inside the layers below at once)" % (n, len(u))
+            for n, u in sorted(lock_uids.items()) if len(u) > 1 and n != "flush"]
+
+
 def term_desc(t):
     kind = "p"
     if t[0] == 3:
@@ -541,6 +730,7 @@ def hs_model_check(model, bench, senders, s, peer):
                 diffs.append("event %d of model thread %d: impl=%s model=%s (1 acq 2 rel 3 put 4 get 5 write 6 flip "
                              "7 nsend[0 ok|1 raise]; 0 = not enabled in the model)" % (i, sched[i], b, a))
                 break
+    diffs.extend(lock_identity_diffs(s.lock_uids))
     mw = [term_desc(t) for t in wire]
     rw = []
     for tid, k, data in bench.writes:
